@@ -2,11 +2,13 @@
 // any-store databases through the counting / fault-injecting wrapper (wrap.go).  For every operation of a
 // workload: a fault-free run (storage calls recorded, database directory copied at every call boundary =
 // crash images, each reopened with spacestorage.New / TreeStorage / BuildObjectTree / BuildAclListWithIdentity),
-// then one run per boundary in which that call fails, followed by a retry of the same input on the same live
-// objects.  Every operation becomes one Coq case (Run/C10_run.v): model world before, operation, observation.
+// then two runs per boundary — that call returns an injected error / the operation's context is cancelled right
+// before that call (wrap.go) —, each followed by a retry of the same input on the same live objects under a fresh
+// context.  Every operation becomes one Coq case (Run/C10_run.v): model world before, operation, observation.
 package main
 
 import (
+	"context"
 	"fmt"
 	"os"
 	"path/filepath"
@@ -202,8 +204,10 @@ func (wl *WL) prepare(op OpSpec) *OpInput {
 	return in
 }
 
-// apply runs the operation on the live objects of e.
-func (wl *WL) apply(e *Env, op OpSpec, in *OpInput) (r OpResult) {
+// apply runs the operation on the live objects of e under the context ctx (the fault kind "cancel" cancels it at a
+// storage-call boundary).  aclList.AddRawRecord and objectTree.Delete have no context parameter: they run their
+// storage calls on context.Background(), so a caller's cancellation cannot reach the store there.
+func (wl *WL) apply(e *Env, ctx context.Context, op OpSpec, in *OpInput) (r OpResult) {
 	defer func() {
 		if p := recover(); p != nil {
 			r.panic = fmt.Sprint(p)
@@ -230,7 +234,7 @@ func (wl *WL) apply(e *Env, op OpSpec, in *OpInput) (r OpResult) {
 		}
 		e.trees[op.Tree] = tr
 	case "deferred_open":
-		return OpResult{err: e.openDeferred(wl, op.Tree)}
+		return OpResult{err: e.openDeferred(ctx, wl, op.Tree)}
 	case "local_add", "snapshot_add":
 		tr := e.trees[op.Tree]
 		tr.Lock()
@@ -309,7 +313,12 @@ type liveTree struct {
 }
 
 type FaultObs struct {
+	Kind     string // faultError | faultCancel
 	K        int
+	Done     bool   // kind "cancel" only: the operation completed although its context was cancelled at call K
+	CtxDead  bool   // kind "cancel": the context handed to call K was dead (i.e. derived from the operation's context)
+	CallErr  string // kind "cancel": what the real store answered to call K
+	LaterErr int    // kind "cancel": number of later storage calls that failed
 	Err      string
 	Fired    bool
 	Live     []string
@@ -331,7 +340,8 @@ type Observation struct {
 	Images         []Image
 	Post           []Ent
 	Live           []string
-	Faults         []FaultObs
+	Faults         []FaultObs // kind "error", one per boundary
+	Cancels        []FaultObs // kind "cancel", one per boundary
 	trees          []liveTree
 	acl            []string
 	add            *objecttree.AddResult
@@ -373,7 +383,7 @@ func (wl *WL) runOp(idx int, op OpSpec, explore bool) *Observation {
 	}
 	e.ctl.start(0, snap)
 	snap(0)
-	res := wl.apply(e, op, in)
+	res := wl.apply(e, ctx, op, in)
 	ob.Calls = e.ctl.calls
 	e.ctl.stop()
 	ob.Ok, ob.Err, ob.add, ob.panic = res.err == nil, errStr(res.err), res.add, res.panic
@@ -410,38 +420,16 @@ func (wl *WL) runOp(idx int, op OpSpec, explore bool) *Observation {
 		return ob
 	}
 
-	// ---- one fault per boundary, then a retry of the same input
+	// ---- one fault of each kind per boundary, then a retry of the same input under a fresh context
 	n := len(ob.Calls)
 	if !explore {
 		n = 0
 	}
 	for k := 1; k <= n; k++ {
-		fdir := wl.copyOf(wl.base, "fault")
-		fe := wl.openEnv(fdir)
-		fe.ctl.start(k, nil)
-		r1 := wl.apply(fe, op, in)
-		fired := fe.ctl.injected
-		fe.ctl.stop()
-		f := FaultObs{K: k, Err: errStr(r1.err), Fired: fired, Panic: r1.panic}
-		if op.Kind == "space_create" {
-			// no live object exists yet; any-store keeps collection objects of the rolled-back transaction in
-			// its cache, so the database handle is reopened (as the storage provider does) before the retry
-			fe.close()
-			fe = wl.openEnv(fdir)
-		}
-		f.Live = wl.liveHeads(fe, op)
-		f.Stored = wl.storedHeads(fe, op)
-		f.Table = dump(fe.real)
-		r2 := wl.apply(fe, op, in)
-		f.RetryOk, f.RetryErr = r2.err == nil, errStr(r2.err)
-		if r2.panic != "" {
-			f.Panic += " retry: " + r2.panic
-		}
-		f.Live2 = wl.liveHeads(fe, op)
-		fe.close()
-		f.Final = wl.inspect(fdir)
-		_ = os.RemoveAll(fdir)
-		ob.Faults = append(ob.Faults, f)
+		ob.Faults = append(ob.Faults, wl.faultRun(op, in, faultError, k))
+	}
+	for k := 1; k <= n; k++ {
+		ob.Cancels = append(ob.Cancels, wl.faultRun(op, in, faultCancel, k))
 	}
 
 	// ---- the fault-free result becomes the next base
@@ -460,6 +448,57 @@ func (wl *WL) runOp(idx int, op OpSpec, explore bool) *Observation {
 		wl.state[op.Tree] = slotDeleted
 	}
 	return ob
+}
+
+// faultRun: a fresh copy of the pre-state, the operation with a fault of the given kind at call k, observation of
+// the live object and the storage, then the SAME input again on the same live objects under a fresh context, and
+// the final directory reopened.
+func (wl *WL) faultRun(op OpSpec, in *OpInput, kind string, k int) FaultObs {
+	fdir := wl.copyOf(wl.base, "fault")
+	fe := wl.openEnv(fdir)
+	opctx, cancel := context.WithCancel(context.Background())
+	defer cancel()
+	if kind == faultCancel {
+		fe.ctl.startCancel(k, cancel)
+	} else {
+		fe.ctl.start(k, nil)
+	}
+	r1 := wl.apply(fe, opctx, op, in)
+	f := FaultObs{Kind: kind, K: k, Err: errStr(r1.err), Fired: fe.ctl.injected, Panic: r1.panic,
+		CtxDead: fe.ctl.ctxDead, CallErr: fe.ctl.callErr, LaterErr: fe.ctl.laterErr}
+	fe.ctl.stop()
+	if kind == faultCancel && r1.err == nil {
+		// the store did not care about the dead context (any-store commits on context.Background()): the
+		// operation has to be complete, exactly as in the fault-free run; there is nothing to retry
+		f.Done = true
+		f.Live = wl.liveHeads(fe, op)
+		f.Stored = wl.storedHeads(fe, op)
+		f.Table = dump(fe.real)
+		f.Live2 = f.Live
+		fe.close()
+		f.Final = wl.inspect(fdir)
+		_ = os.RemoveAll(fdir)
+		return f
+	}
+	if op.Kind == "space_create" {
+		// no live object exists yet; any-store keeps collection objects of the rolled-back transaction in
+		// its cache, so the database handle is reopened (as the storage provider does) before the retry
+		fe.close()
+		fe = wl.openEnv(fdir)
+	}
+	f.Live = wl.liveHeads(fe, op)
+	f.Stored = wl.storedHeads(fe, op)
+	f.Table = dump(fe.real)
+	r2 := wl.apply(fe, context.Background(), op, in) // fresh, live context
+	f.RetryOk, f.RetryErr = r2.err == nil, errStr(r2.err)
+	if r2.panic != "" {
+		f.Panic += " retry: " + r2.panic
+	}
+	f.Live2 = wl.liveHeads(fe, op)
+	fe.close()
+	f.Final = wl.inspect(fdir)
+	_ = os.RemoveAll(fdir)
+	return f
 }
 
 // ---------------------------------------------------------------- printing
@@ -622,6 +661,10 @@ func (p *printer) collectOrds(ob *Observation) {
 		add(im.Table)
 	}
 	for _, f := range ob.Faults {
+		add(f.Table)
+		add(f.Final.Table)
+	}
+	for _, f := range ob.Cancels {
 		add(f.Table)
 		add(f.Final.Table)
 	}
